@@ -290,6 +290,27 @@ class Interp:
                 elif name == 'remove_block':
                     names = list(work.blocks)
                     work.remove_block(names[op['x'] % len(names)] if names else '__none__')
+                elif name == 'block_with_hidden_output':
+                    # a block one of whose members is a circuit output without being a declared output of the block, then the
+                    # block (and its gates) removed again
+                    labs = self._labels(work)
+                    base = labs[op['x'] % len(labs)] if labs else None
+                    u, v, bn = f'hb{self.fresh}_u', f'hb{self.fresh}_v', f'HB{self.fresh}'
+                    self.fresh += 1
+                    if base is None:
+                        work.emplace_gate(u, gate.ALWAYS_TRUE, ())
+                    else:
+                        work.emplace_gate(u, gate.NOT, (base,))
+                    work.emplace_gate(v, gate.AND, (u, base if base is not None else u))
+                    outs = list(work.outputs)
+                    outs.insert(op['y'] % (len(outs) + 1), u)
+                    if op.get('both'):
+                        outs.append(v)
+                    work.set_outputs(outs)
+                    work.make_block(bn, [u, v], [v])
+                    if op.get('remove', True):
+                        work.remove_block(bn)
+                    kind = 'remove_block' if op.get('remove', True) else 'make_block'
                 elif name == 'into_bench':
                     work.into_bench()
                 elif name == 'copy':
@@ -486,6 +507,10 @@ def make_machine(tier, hooks):
             else:
                 self._do({'op': 'make_block', 'c': c, 'xs': xs, 'ins': ins, 'auto_inputs': auto, 'name': name})
 
+        @rule(c=I, x=I, y=I, both=st.booleans(), remove=st.sampled_from([True, True, False]))
+        def block_with_hidden_output(self, c, x, y, both, remove):
+            self._do({'op': 'block_with_hidden_output', 'c': c, 'x': x, 'y': y, 'both': both, 'remove': remove})
+
         @rule(c=I, x=I, remove=st.booleans())
         def drop_block(self, c, x, remove):
             self._do({'op': 'remove_block' if remove else 'delete_block', 'c': c, 'x': x})
@@ -523,7 +548,7 @@ SPEC = {
              'list, acyclic, both top-sorts, block labels, copy equal + independent) and agreement of evaluate / '
              'evaluate_full_circuit with the reference run. Non-trivial: history with >=3 adopted mutations incl. one of '
              'right-connect / rename / replace_subcircuit / into_bench / remove_gate / remove_block; distinct by operation log.'
-             ' Added during the build: refused calls of several kinds per mutator (repeated / non-input / extra labels for set_inputs, repeated replaced-side connector pairs, several inputs per replace_inputs list in an order of their own), a rule for replacements whose outputs feed each other, a copy.copy taken just before every third call that has to stay as it was, and the other circuits of the pool compared around every call.'),
+             ' Added during the build: refused calls of several kinds per mutator (repeated / non-input / extra labels for set_inputs, repeated replaced-side connector pairs, several inputs per replace_inputs list in an order of their own), a rule for replacements whose outputs feed each other, a rule for a connector pair listed twice among all gates, a rule that builds and removes a block one of whose members is a circuit output the block does not declare, a copy.copy taken just before every third call that has to stay as it was, and the other circuits of the pool compared around every call.'),
     'assumptions': ['non-CirboError exceptions of a call are counted, not judged (the statement is conditional on normal return)'],
     'subs': [Sub('histories', None, check_history, {'quick': 3200, 'thorough': 192000}, stateful=make_machine)],
     'required_classes': {'histories': ['k:connect_right_like', 'k:connect_left_like', 'k:rename_gate', 'k:replace_subcircuit',
